@@ -4,12 +4,14 @@
      CFG    as for gen_src (version, no_version_header, package, type_mappings, ...)
      NF NC NH  which iteration order the three hash containers are given (the model takes the order as
             an argument): NF per-file import set, NC per-crate import set, NH the CrateTypes map.
-            n0 insertion order, n1 reversed, n2 glob imports first, n3 glob imports last
+            n0 insertion order, n1 reversed, n2 glob imports first, n3 glob imports last (n2 / n3 were the two
+            outcomes of finding C14-glob-order; since its /repo fix every order must give the same import list)
      files  in ARRIVAL order at the collector; PATH = the components of the path as Path::iter yields them
      OBS    none | (some ((CRATE ((MODULE NAME) ...)) ...)): import pairs observed in the implementation's
             output, judged by the extracted Spec.C14Spec predicates
    answer: ((status ..) (files ((NAME CRATE ((MODULE NAME)..) TEXT ((KIND ORIGINAL RENAMED)..)) ..)) (extra ((NAME TEXT)..))
-            (spec (crates ((CRATE FILE CONVENTIONAL) ..)) (judge ((CRATE good (unsound ..) (refs ..)) ..)))) *)
+            (spec (crates ((CRATE FILE CONVENTIONAL DEFS) ..))
+                  (judge ((CRATE good (unsound ..) (refs (NAME FROM GENERATED imported (ELSEWHERE..) dom known unique) ..) (const_imports ..)) ..)))) *)
 open Drv_base
 open Drv_ast
 open Drv_ir
@@ -115,7 +117,7 @@ let src_infos (entries : Model.ws_entry list) : Model.src_info list =
 let of_verdict (v : Model.ref_verdict) : sx =
   L [str_to_atom v.Model.rv_name; str_to_atom v.Model.rv_from; str_to_atom v.Model.rv_generated_name; of_bool v.Model.rv_imported;
      of_list str_to_atom v.Model.rv_elsewhere; of_bool v.Model.rv_dom;
-     of_opt (fun s -> A (coqstring s)) v.Model.rv_known]
+     of_opt (fun s -> A (coqstring s)) v.Model.rv_known; of_bool v.Model.rv_unique]
 
 let spec_part (lang : Model.lang) (mapped : Model.str list) (entries : Model.ws_entry list) (obs : (Model.str * (Model.str * Model.str) list) list option) : sx =
   let ws = src_infos entries in
